@@ -53,7 +53,7 @@ pub fn get() -> FunctionDefinitions {
                                 let str = if size > str.len() {
                                     str
                                 } else {
-                                    str[size - 1..].into()
+                                    str.get(str.len() - size..)?.into()
                                 };
                                 Some(str.into())
                             }
